@@ -15,7 +15,7 @@ TITLE = 'Every symbol decodes back to exactly the content that was given'
 RULE = ('bounded-exhaustive: (1) all byte strings of length 0..2 [quick: all of length <= 1 and the 44x44 class-boundary pairs], '
         '(2) all strings of length <= n over a 16-character class alphabet, (3) all option vectors with <= k deviations from the '
         'defaults on 12 representative contents, (4) longest-fitting / one-shorter / length-1 content for every (version, level, mode), '
-        '(5) all sequences of <= 3 parts from a 12-part menu x micro x eci; every returned symbol is decoded by qrref and the payload '
+        '(5) all sequences of <= 3 parts from a 12-part menu x micro x eci, (6) byte parts in 2-3 different encodings with eci=True around every capacity, all 45^2 alphanumeric pairs and all 1000 digit triples; every returned symbol is decoded by qrref and the payload '
         'bytes and ECI headers compared with the statement. Non-trivial = a symbol was returned and decoded; distinct = distinct call.')
 BOUNDS = {'quick': 'bytes<=1 all + 44^2 pairs; strings n<=3; k<=2 deviations; capacity sweep on M1-M4,1-10,26,27,40; <=2 parts',
           'thorough': 'all 65793 byte strings <=2; strings n<=4; k<=3 deviations + full product on versions<=2/Micro; all 44 versions; <=3 parts'}
@@ -94,6 +94,15 @@ def gen_cases(tier):
             for mode in T.MODES:
                 if T.mode_supported(mode, v):
                     yield ('cap', v, lvl, mode)
+    # family 6: several byte parts in different non-ISO-8859-1 encodings with eci=True, total length around the capacity
+    for v in (1, 2, 3, 9, 10) if q else (1, 2, 3, 4, 5, 9, 10, 26, 27):
+        for lvl in ('L', 'M', 'Q', 'H'):
+            yield ('ecicap', v, lvl)
+    # all alphanumeric pairs and all 3-digit groups (every cell of the compaction tables)
+    for a in T.ALNUM:
+        yield ('alnumrow', a)
+    for h in range(10):
+        yield ('numrow', h)
     # family 5
     for r in (1, 2) if q else (1, 2, 3):
         for idx in itertools.product(range(len(PARTS)), repeat=r):
@@ -183,6 +192,30 @@ def run_case(case, acc):
                     acc.count('cap_refused_fitting')
                 if qr is not None:
                     acc.add('cap_cells', (v, lvl, mode))
+    elif kind == 'ecicap':
+        _, v, lvl = case
+        for encs in (('utf-8', 'iso-8859-5'), ('utf-8', 'iso-8859-5', 'shift_jis'), ('iso-8859-5', 'iso-8859-1', 'utf-8')):
+            heads = sum(12 for e in encs if e != 'iso-8859-1')
+            room = T.data_bits(v, lvl) - heads - len(encs) * (4 + T.cci_bits('byte', v))
+            for d in (-1, 0, 1, 2):
+                n = room // 8 + d
+                if n < len(encs):
+                    continue
+                k = len(encs)
+                sizes = [n // k + (1 if i < n % k else 0) for i in range(k)]
+                content = [(chr(0x61 + i) * sz, 4, enc) for i, (sz, enc) in enumerate(zip(sizes, encs))]
+                for kw in ({'eci': True, 'error': lvl, 'mask': 1}, {'eci': True, 'error': lvl, 'version': v, 'mask': 1}):
+                    do_call(content, kw, acc, ('call', content, kw))
+    elif kind == 'alnumrow':
+        for b in T.ALNUM:
+            for c in ('', '7'):
+                s_ = case[1] + b + c
+                do_call(s_, {'mode': 'alphanumeric', 'micro': False, 'mask': 2}, acc, ('call', s_, {'mode': 'alphanumeric', 'micro': False, 'mask': 2}))
+    elif kind == 'numrow':
+        for x in range(100):
+            s_ = '%d%02d' % (case[1], x)
+            do_call(s_, {'mask': 0}, acc, ('call', s_, {'mask': 0}))
+            do_call(s_ + s_[:2], {'mask': 0}, acc, ('call', s_ + s_[:2], {'mask': 0}))
     elif kind == 'parts':
         content = [PARTS[i] for i in case[1]]
         for micro in (None, False):
